@@ -125,7 +125,7 @@ fn parse_val(slots: &[Value], s: &str) -> Option<Value> {
 /// the value argument of an operation (every operation has at most one, always the last argument)
 fn val_arg(slots: &[Value], name: &str, args: &[&str]) -> Result<Option<Value>, ()> {
     match name {
-        "push" | "insat" | "oins" | "assign" | "setk" | "seti" | "orins" => match args.last().and_then(|a| parse_val(slots, a)) {
+        "push" | "insat" | "oins" | "assign" | "setk" | "seti" | "orins" | "resize" => match args.last().and_then(|a| parse_val(slots, a)) {
             Some(v) => Ok(Some(v)),
             None => Err(()),
         },
@@ -226,8 +226,53 @@ fn apply(t: &mut Value, name: &str, args: &[&str], x: Option<Value>) -> String {
             }
             None => "panic".into(),
         },
+        "splitoff" => match t.as_array_mut() {
+            Some(a) => {
+                let tail = a.split_off(num(0));
+                format!("vals:[{}]", tail.iter().map(d).collect::<Vec<_>>().join(","))
+            }
+            None => "panic".into(),
+        },
+        "drain" => match t.as_array_mut() {
+            Some(a) => {
+                let got: Vec<Value> = a.drain(num(0)..num(1)).collect();
+                format!("vals:[{}]", got.iter().map(d).collect::<Vec<_>>().join(","))
+            }
+            None => "panic".into(),
+        },
+        "extw" => match t.as_array_mut() {
+            Some(a) => {
+                a.extend_from_within(num(0)..num(1));
+                "done".into()
+            }
+            None => "panic".into(),
+        },
+        "resize" => match t.as_array_mut() {
+            Some(a) => {
+                a.resize(num(0), val(1));
+                "done".into()
+            }
+            None => "panic".into(),
+        },
+        "retnn" => {
+            if let Some(a) = t.as_array_mut() {
+                a.retain(|v| !v.is_null());
+                "done".into()
+            } else if let Some(o) = t.as_object_mut() {
+                o.retain(|_, v| !v.is_null());
+                "done".into()
+            } else {
+                "panic".into()
+            }
+        }
         _ => "bad-op".into(),
     }
+}
+
+/// a value built in memory from the text (owned representation everywhere)
+fn build(doc: &[u8]) -> Option<Value> {
+    let j: serde_json::Value = serde_json::from_slice(doc).ok()?;
+    sonic_rs::to_value(&j).ok()
 }
 
 pub fn run_history(prog: &str) -> String {
@@ -238,6 +283,10 @@ pub fn run_history(prog: &str) -> String {
         let idx = |k: usize| p.get(k).and_then(|s| s.parse::<usize>().ok()).unwrap_or(usize::MAX);
         let res: Option<String> = match p[0] {
             "P" => sonic_rs::from_slice::<Value>(&unhex(p[1])).ok().map(|v| {
+                slots.push(v);
+                "ok".to_string()
+            }),
+            "B" => build(&unhex(p[1])).map(|v| {
                 slots.push(v);
                 "ok".to_string()
             }),
@@ -403,7 +452,11 @@ fn gen_history(r: &mut Rng, len: usize, allow_empty_path: bool) -> String {
         let n = slots.len();
         let c = r.below(24);
         if n == 0 || c == 0 || (c == 1 && n < 3) {
-            ops.push(format!("P:{}", hex(r.pick(DOCS).as_bytes())));
+            // parsed, or built in memory (owned from the start; duplicate-free documents only)
+            let doc = *r.pick(DOCS);
+            let dupfree = !doc.contains("\"a\":1,\"a\"") && !doc.contains("\"a\":[1],\"b\":0,\"a\"") && !doc.contains("\"k\":1,\"k\"");
+            let tag = if dupfree && r.chance(1, 3) { "B" } else { "P" };
+            ops.push(format!("{}:{}", tag, hex(doc.as_bytes())));
         } else {
             let i = r.below(n);
             let op = match c {
@@ -431,7 +484,20 @@ fn gen_history(r: &mut Rng, len: usize, allow_empty_path: bool) -> String {
                             6 => format!("swaprem:{}", r.below(len + 1)),
                             7 => format!("trunc:{}", r.below(len + 2)),
                             8 => "clear".to_string(),
-                            9 => format!("seti:{}:{}", r.below(len + 1), gen_val(r, &slots)),
+                            9 => match r.below(7) {
+                                0 => format!("splitoff:{}", r.below(len + 2)),
+                                1 => {
+                                    let a = r.below(len + 2);
+                                    format!("drain:{}:{}", a, a + r.below(len + 2 - a.min(len + 1)))
+                                }
+                                2 => {
+                                    let a = r.below(len + 1);
+                                    format!("extw:{}:{}", a, a + r.below(len + 2 - a))
+                                }
+                                3 => format!("resize:{}:{}", r.below(len + 3), gen_val(r, &slots)),
+                                4 => "retnn".to_string(),
+                                _ => format!("seti:{}:{}", r.below(len + 1), gen_val(r, &slots)),
+                            },
                             10 => format!("setk:{key}:{}", gen_val(r, &slots)),
                             _ => format!("oins:{key}:{}", gen_val(r, &slots)),
                         }
@@ -441,7 +507,7 @@ fn gen_history(r: &mut Rng, len: usize, allow_empty_path: bool) -> String {
                             3 | 4 => format!("orem:{key}"),
                             5 | 6 => format!("setk:{key}:{}", gen_val(r, &slots)),
                             7 | 8 => format!("orins:{key}:{}", gen_val(r, &slots)),
-                            9 => "clear".to_string(),
+                            9 => if r.chance(1, 2) { "clear".to_string() } else { "retnn".to_string() },
                             10 => format!("seti:0:{}", gen_val(r, &slots)),
                             _ => format!("push:{}", gen_val(r, &slots)),
                         }
@@ -479,6 +545,13 @@ fn run_history_state(slots: &mut Vec<Value>, w: &str) -> bool {
                 true
             }
             Err(_) => false,
+        },
+        "B" => match build(&unhex(p[1])) {
+            Some(v) => {
+                slots.push(v);
+                true
+            }
+            None => false,
         },
         "C" => match slots.get(idx(1)).cloned() {
             Some(v) => {
